@@ -1342,8 +1342,11 @@ def mime_table_obligations(repo, tier):
         if ext not in routable:
             continue
         mt = STANDARD_TYPES[ext]
-        obls.append(ground_obligation(f"C16/mime_types.py::MIME_TYPE_MAPPING/policy#standard-type-of-.{ext}-attachments-is-supported", mt in MIMES,
-                                      f".{ext} files are announced as {mt}; is_supported_mime_type({mt!r}) is {mt in MIMES}", MIME, kind="policy", backend="ground"))
+        # MIME type names are case-insensitive; Message.get_content_type() (hence mailparser) reports them in lower case
+        ok = mt in MIMES and mt.lower() in MIMES
+        obls.append(ground_obligation(f"C16/mime_types.py::MIME_TYPE_MAPPING/policy#standard-type-of-.{ext}-attachments-is-supported", ok,
+                                      f".{ext} files are announced as {mt}; is_supported_mime_type: as registered {mt in MIMES}, as the parsers report it "
+                                      f"({mt.lower()}) {mt.lower() in MIMES}", MIME, kind="policy", backend="ground"))
     return {"obligations": obls, "functions": []}
 
 
